@@ -1,3 +1,3 @@
 SPECIFICATION Spec
-INVARIANTS SizeInv DomainInv CoverInv ClassInv CountInv Emit
+INVARIANTS SpellInv SizeInv DomainInv CoverInv ClassInv CountInv Emit
 CHECK_DEADLOCK FALSE
